@@ -24,6 +24,38 @@ mod st;
 mod types;
 
 use serde_json::{json, Value};
+
+/// The heap as a seam: what a fresh (not zeroed) heap block contains depends on what the process freed before, which
+/// no seed decides. Every block handed out by `alloc` / grown by `realloc` is therefore filled with a fixed pattern
+/// (blocks up to 1 MiB; larger ones come straight from mmap and are zero), so that code which relies on a fresh
+/// block being zero misbehaves in the same way in every execution, the replay of a minimised history included.
+/// `alloc_zeroed` goes to the system allocator unchanged (calloc: lazily mapped zero pages for the 4 GiB arenas).
+struct PoisonAlloc;
+const POISON_MAX: usize = 1 << 20;
+unsafe impl std::alloc::GlobalAlloc for PoisonAlloc {
+    unsafe fn alloc(&self, l: std::alloc::Layout) -> *mut u8 {
+        let p = std::alloc::System.alloc(l);
+        if !p.is_null() && l.size() <= POISON_MAX {
+            std::ptr::write_bytes(p, 0xA5, l.size());
+        }
+        p
+    }
+    unsafe fn dealloc(&self, p: *mut u8, l: std::alloc::Layout) {
+        std::alloc::System.dealloc(p, l)
+    }
+    unsafe fn alloc_zeroed(&self, l: std::alloc::Layout) -> *mut u8 {
+        std::alloc::System.alloc_zeroed(l)
+    }
+    unsafe fn realloc(&self, p: *mut u8, l: std::alloc::Layout, new_size: usize) -> *mut u8 {
+        let q = std::alloc::System.realloc(p, l, new_size);
+        if !q.is_null() && new_size > l.size() && new_size <= POISON_MAX {
+            std::ptr::write_bytes(q.add(l.size()), 0xA5, new_size - l.size());
+        }
+        q
+    }
+}
+#[global_allocator]
+static GLOBAL: PoisonAlloc = PoisonAlloc;
 use std::collections::{BTreeMap, BTreeSet};
 use std::io::Write;
 use std::process::{Command, Stdio};
